@@ -6,6 +6,7 @@ import importlib
 import importlib.abc
 import importlib.util
 import marshal
+import collections.abc
 import os
 import pickle
 import _pickle
@@ -37,10 +38,68 @@ class FinderLog(importlib.abc.MetaPathFinder):
         return None
 
 
+class AnsweringEnviron(collections.abc.MutableMapping):
+    """os.environ stand-in: whatever variable code *of the library under test* asks for is "set" (to a path in
+    the scratch directory); everybody else sees the real environment.  An optional feature switched on by an
+    environment variable is thereby switched on, without the harness knowing its name."""
+
+    def __init__(self, real, repo_fickling, scratch):
+        self._real = real
+        self._repo = repo_fickling
+        self._scratch = scratch
+        self.asked = []
+
+    def _from_library(self):
+        f = sys._getframe(2)
+        for _ in range(8):
+            if f is None:
+                return False
+            fn = f.f_code.co_filename
+            if fn.startswith(self._repo):
+                return True
+            f = f.f_back
+        return False
+
+    def __getitem__(self, key):
+        try:
+            return self._real[key]
+        except KeyError:
+            if isinstance(key, str) and self._from_library():
+                self.asked.append(key)
+                return os.path.join(self._scratch, "env-" + "".join(c if c.isalnum() else "_" for c in key))
+            raise
+
+    def __contains__(self, key):
+        try:
+            self[key]
+            return True
+        except KeyError:
+            return False
+
+    def __setitem__(self, key, value):
+        self._real[key] = value
+
+    def __delitem__(self, key):
+        del self._real[key]
+
+    def __iter__(self):
+        return iter(self._real)
+
+    def __len__(self):
+        return len(self._real)
+
+    def copy(self):
+        return dict(self._real)
+
+
 class EffectWatch:
-    def __init__(self, scratch, repo_dir):
+    def __init__(self, scratch, repo_dir, answering_environ=False):
         self.scratch = scratch
         self.repo_fickling = os.path.join(os.path.realpath(repo_dir), "fickling") + os.sep
+        self.environ = None
+        if answering_environ:
+            self.environ = AnsweringEnviron(os.environ, self.repo_fickling, scratch)
+            os.environ = self.environ
         self.finder = FinderLog()
         sys.meta_path.insert(0, self.finder)
         # canary modules: on sys.path, never imported by the harness
